@@ -356,9 +356,29 @@ def h5_refuses(ex, p, ds, idx):
 
 @REG.specfunc()
 def h5_refuses_write(ex, p, ds, idx, data):
-    return VBool(_H5REFW(ds.t, p.sigma["dshape"][ds.t], p.sigma["dtype"][ds.t], box(ex.deref(p, idx)), box(ex.deref(p, data))))
+    from sidecar_b_store import norm_sel
+    return VBool(_H5REFW(ds.t, p.sigma["dshape"][ds.t], p.sigma["dtype"][ds.t], norm_sel(box(ex.deref(p, idx))),
+                         box(ex.deref(p, data))))
 
 
 @REG.specfunc()
 def store_data(ex, p, arr, o, v):
     return VOpaqueTerm(z3.Store(arr.t, o.t, box(v)))
+
+
+@REG.specfunc()
+def arg_of(ex, p, callee, argname):
+    """value passed for parameter `argname` in the LAST call (on this path) of a contracted function whose qualified
+    name ends with `callee` (call-event postconditions: what exactly was handed to the callee)"""
+    cs = z3.simplify(callee.t).as_string()
+    an = z3.simplify(argname.t).as_string()
+    for qn, env in reversed(p.events):
+        if qn.endswith(cs):
+            return env[an]
+    raise KeyError("no call of %s on this path" % cs)
+
+
+@REG.specfunc()
+def was_called(ex, p, callee):
+    cs = z3.simplify(callee.t).as_string()
+    return VBool(any(qn.endswith(cs) for qn, env in p.events))
